@@ -6,10 +6,11 @@ spec      : spec/Retry.tla.  Generation layer (LoadMethod: first methodConfig en
 spec->code: (a) TLC enumerates service configs (Retry.emit.sel_*.cfg, .values.cfg, .table.cfg) with the resolved
             (retry, timeout) of every method; each config is written as a real retry-config JSON file and loaded by
             the real Options.build + API.build; the Method hook events are compared with the prediction.
-            (b) TLC enumerates calls (Retry.emit.run.*.cfg: table config x method x fault script x jitter x override)
-            with the predicted attempts, per-attempt timeouts, sleeps (asked bound, slept) and outcome; the libraries
-            generated from the table configs are driven under virtual time behind the loopback server, sync and
-            asyncio clients, and compared.
+            (b) TLC enumerates calls (Retry.emit.run.*.cfg: table config x method x transport x fault script x jitter
+            x override) with the predicted attempts, per-attempt timeouts, sleeps (asked bound, slept) and outcome; the
+            libraries generated from the table configs (transport grpc+rest, http rules with and without a body) are
+            driven under virtual time: sync and asyncio gRPC clients behind the loopback server, and the REST client
+            with requests.Session.request replaced by a scripted recorder (the timeout of every HTTP request).
 code->spec: the hook events (load) and the recorded call events (invoke attempt fault reply sleep return raise) are
             validated by spec/RetryTrace.tla in batches; every invariant of Retry is evaluated after every step.
 """
@@ -32,11 +33,27 @@ SNAKE = dict(Get='get', BatchGet='batch_get', GetMore='get_more', Put='put', Dro
              Touch='touch')
 
 
-def carrier_api():
+def carrier_api(rules=None):
+    """rules = {'body': [sel..], 'delete': [sel..]} as printed by Retry.tla (HTTPRULES): methods bound with a request
+    body (post, body "*") / with DELETE; every other method is a GET without body.  None: no http rules (grpc only)."""
     msgs = [dict(name='Item', fields=[dict(name='name'), dict(name='id', type='int32')]),
-            dict(name='Req', fields=[dict(name='name')])]
-    svcs = [dict(name=s['name'], methods=[dict(name=m, **{'in': 'Req', 'out': 'Item'}) for m in s['methods']])
-            for s in SERVICES.values()]
+            dict(name='Req', fields=[dict(name='name'), dict(name='note')])]
+    svcs = []
+    for full, s in SERVICES.items():
+        methods = []
+        for m in s['methods']:
+            md = dict(name=m, **{'in': 'Req', 'out': 'Item'})
+            if rules is not None:
+                sel = dict(svc=full, meth=m)
+                uri = '/v1/%s/{name=items/*}:%s' % (s['snake'], SNAKE[m])
+                if sel in rules['body']:
+                    md['http'] = [dict(verb='post', uri=uri, body='*')]
+                elif sel in rules['delete']:
+                    md['http'] = [dict(verb='delete', uri=uri)]
+                else:
+                    md['http'] = [dict(verb='get', uri=uri)]
+            methods.append(md)
+        svcs.append(dict(name=s['name'], methods=methods))
     return dict(files=[dict(name='acme/rt/v1/rt.proto', package=PKG, messages=msgs, services=svcs)])
 
 
@@ -168,11 +185,11 @@ def _resolve_chunk(cfgs):
 
 def _generate_table(args):
     """full generation (real CLI entry) of the carrier API with one table config; materialised under `root`."""
-    cfg, root = args
-    api = dict(carrier_api(), retry=service_config(cfg))
+    cfg, root, rules = args
+    api = dict(carrier_api(rules), retry=service_config(cfg))
     gen.read_trace()
     try:
-        req, res = gen.generate_api(api, dict(transport=['grpc'], snippets=False), os.path.dirname(root))
+        req, res = gen.generate_api(api, dict(transport=['grpc', 'rest'], snippets=False), os.path.dirname(root))
     except Exception as e:
         return dict(error=f'{type(e).__name__}: {e}'[:300], methods=[])
     ev = [e for e in gen.read_trace() if e['ev'] == 'Method']
@@ -185,6 +202,7 @@ def _drive(args):
     return gen.run_driver('harness.drivers.retry', root, payload, timeout=1500)
 
 
+WORKERS = 8        # shared machine
 JAVA_MEM = {'JAVA_TOOL_OPTIONS': '-Xmx3g'}     # several JVMs run side by side: bound each heap
 
 
@@ -237,11 +255,12 @@ def ovr_key(o):
 
 
 def run_key(c, mode):
+    mode = {'sync': 'grpc-sync', 'async': 'grpc-async'}.get(mode, mode)
     return (f"run:table{c['cid']}/{c['sel']['svc'].split('.')[-1]}.{c['sel']['meth']}/{mode}/{ovr_key(c['ovr'])}/"
             f"{'>'.join(c['script']) or 'OK'}/phi={c['jit'][0]}:{c['jit'][1]}")
 
 
-SPEC_MUTANTS = ['service_level', 'suffix_match', 'any_service', 'last_match', 'no_deadline', 'ignore_override', 'no_cap',
+SPEC_MUTANTS = ['rest_no_body_no_timeout', 'service_level', 'suffix_match', 'any_service', 'last_match', 'no_deadline', 'ignore_override', 'no_cap',
                 'init_uncapped', 'stale_timeout', 'retry_all', 'check_after_sleep']
 
 
@@ -258,7 +277,7 @@ def spec_mutants(timeout=600):
 
 
 def main(chk, args):
-    pool = ThreadPoolExecutor(12)
+    pool = ThreadPoolExecutor(10)
     try:
         _main(chk, args, pool)
     finally:
@@ -285,7 +304,7 @@ def _main(chk, args, pool):
         futs['emit run ' + rc.split('.')[3]] = pool.submit(tlc.emit_cases, 'Retry', rc, deadlock=False, timeout=1500, env=JAVA_MEM)
     results = {k: f.result() for k, f in futs.items()}
     lap('TLC model checking and case emission')
-    resolve_cases, run_cases, sels = [], [], None
+    resolve_cases, run_cases, sels, rules = [], [], None, None
     for k, r in results.items():
         cases, rr = r
         chk.add_tlc(rr, f'Retry case emission ({k[5:]})')
@@ -293,6 +312,7 @@ def _main(chk, args, pool):
             raise core.MachineryError(f'no cases emitted by {k}')
         if rr.tagged.get('SELECTORS'):
             sels = json.loads(json.loads(rr.tagged['SELECTORS'][0]))
+            rules = json.loads(json.loads(rr.tagged['HTTPRULES'][0]))
         (run_cases if k.startswith('emit run') else resolve_cases).extend(cases)
     if not sels:
         raise core.MachineryError('the specification did not print its selectors')
@@ -312,7 +332,7 @@ def _main(chk, args, pool):
 
     traces = []          # (key, trace for RetryTrace, context for reports)
     with gen.scratch() as work:
-        with ProcessPoolExecutor(14, initializer=_init_worker) as ex:
+        with ProcessPoolExecutor(WORKERS, initializer=_init_worker) as ex:
             # 2a. generation layer: enumerated configs through the real Options.build + API.build ------------------------
             chunks = [enum_cases[i:i + 40] for i in range(0, len(enum_cases), 40)]
             fut_res = [ex.submit(_resolve_chunk, [c['cfg'] for c in ch]) for ch in chunks]
@@ -320,7 +340,7 @@ def _main(chk, args, pool):
             roots = {cid: os.path.join(work, f't{cid}', 'out') for cid in cids}
             for cid in cids:
                 os.makedirs(os.path.dirname(roots[cid]), exist_ok=True)
-            fut_tab = {cid: ex.submit(_generate_table, (table[cid]['cfg'], roots[cid])) for cid in cids}
+            fut_tab = {cid: ex.submit(_generate_table, (table[cid]['cfg'], roots[cid], rules)) for cid in cids}
             gens = {cid: f.result() for cid, f in fut_tab.items()}
             resolved_obs = []
             for f in fut_res:
@@ -349,7 +369,7 @@ def _main(chk, args, pool):
             if gens[cid]['error']:
                 raise core.MachineryError(f"generation of table config {cid} failed: {gens[cid]['error']}")
         # 3. run-time layer: drive the emitted clients -----------------------------------------------------------------
-        api = carrier_api()
+        api = carrier_api(rules)
         jobs = []
         by_id = {}
         for i, c in enumerate(run_cases):
@@ -357,14 +377,15 @@ def _main(chk, args, pool):
             by_id[i] = c
         for cid in cids:
             mine = [c for c in run_cases if c['cid'] == cid]
-            nsh = max(1, min(14, len(mine) // 400))
+            nsh = max(1, min(WORKERS, len(mine) // 400))
             for s in range(nsh):
-                shard = [dict(id=c['id'], sel=c['sel'], ovr=c['ovr'], script=c['script'], jit=c['jit']) for c in mine[s::nsh]]
+                shard = [dict(id=c['id'], sel=c['sel'], ovr=c['ovr'], script=c['script'], jit=c['jit'], transport=c['transport'])
+                         for c in mine[s::nsh]]
                 jobs.append((roots[cid], dict(api=api, module=MODULE, unit=U, reply=f'{PKG}.Item', request={'name': 'items/1'},
                                               services={k: {'class': v['name'], 'snake': v['snake']} for k, v in SERVICES.items()},
-                                              methods=SNAKE, cases=shard, modes=['sync', 'async'])))
+                                              methods=SNAKE, cases=shard, modes=['sync', 'async', 'rest'])))
         runs = []
-        with ProcessPoolExecutor(14) as ex:
+        with ProcessPoolExecutor(WORKERS) as ex:
             for ok, out, err in ex.map(_drive, jobs):
                 if not ok:
                     raise core.MachineryError('retry driver failed:\n' + err)
@@ -385,7 +406,8 @@ def _main(chk, args, pool):
                            dict(case=c, trace=tr)))
         # a mismatch is re-run once in isolation (fresh interpreter) before it is reported (DESIGN 7.1)
         for key, c, tr, d in bad[:25]:
-            pl = dict(payload0, cases=[dict(id=c['id'], sel=c['sel'], ovr=c['ovr'], script=c['script'], jit=c['jit'])],
+            pl = dict(payload0, cases=[dict(id=c['id'], sel=c['sel'], ovr=c['ovr'], script=c['script'], jit=c['jit'],
+                                            transport=c['transport'])],
                       modes=[tr['mode']])
             ok, out, err = gen.run_driver('harness.drivers.retry', roots[c['cid']], pl, timeout=300)
             if not ok or out['traces'][0]['events'] != tr['events']:
@@ -428,12 +450,16 @@ def _main(chk, args, pool):
                 '1-3 entries, 1-2 names per entry incl. service-level names, other service, suffix-related method names; every '
                 'duration spelling, multiplier, every canonical code alone and in pairs), non-trivial = names a method of the API; '
                 'call cases = table config x method x override x fault script over {2 retryable, 1 non-retryable} (length <= MaxLen) '
-                'x jitter {0,1/2,1} x {sync, asyncio}, non-trivial = more than one attempt, a deadline, or an error outcome; '
+                'x jitter {0,1/2,1} x {grpc sync, grpc asyncio, rest (fault codes in RestExact; http rule with / without body)}, non-trivial = more than one attempt, a deadline, or an error outcome; '
                 'distinct by the full input')
     for t in [t for t in traces if t[1]['run']][:3] + [t for t in traces if not t[1]['run']][:2]:
         chk.sample(dict(key=t[0], trace=t[1]))
     chk.assumptions += [
-        'unary methods over grpc / grpc_asyncio; loopback server; api-core under virtual time (harness/vtime.py)',
+        'unary methods over grpc / grpc_asyncio (loopback server) and rest (requests.Session.request replaced by a scripted recorder '
+        'below AuthorizedSession; rest_asyncio not driven); api-core under virtual time (harness/vtime.py)',
+        'RestStatusMapping: REST fault scripts use only the codes whose HTTP status api-core maps back to the exception class of the '
+        'code (CANCELLED NOT_FOUND UNIMPLEMENTED INTERNAL UNAVAILABLE); for the other 11 codes the REST error is a parent class '
+        '(e.g. 504 -> GatewayTimeout) that the rendered predicate does not list',
         'run-time durations are multiples of 1/4096 s so that api-core float arithmetic is exact (boundary now+sleep=deadline included)',
         'named deviations modelled: ApiCoreDefault (zero/absent backoff values -> 1 s / 60 s / 2), MaxAttemptsIgnored, ApiCoreFloor '
         '(remaining budget < 1 s -> whole timeout), an explicit timeout= keeps the retry deadline of the retry object',
